@@ -1986,4 +1986,22 @@ theorem pending_nil_of_no_entry (p : TyEnv) (h : ∀ x t, lookupTy p x = some t 
     obtain ⟨k, t⟩ := q
     exact (h k t (by simp [lookupTy])).elim
 
+/-! ## module level, before the first subroutine -/
+
+/-- the reader's state before the first subroutine -/
+structure PreInv (gdone : List String) (st : BState) : Prop where
+  globals : ∀ x, x ∈ st.globals ↔ x ∈ gdone
+  pending : st.pending = []
+  funcs : st.funcs = []
+  cur : st.cur = []
+  blocks : st.blocks = []
+
+theorem defineGlobal_fresh {gdone : List String} {st : BState} (h : PreInv gdone st) (x : String)
+    (hx : x ∉ gdone) : ∃ st', defineGlobal st x = .ok st' ∧ PreInv (x :: gdone) st' := by
+  have hxg : x ∉ st.globals := fun hm => hx ((h.globals x).1 hm)
+  refine ⟨{ st with globals := x :: st.globals }, ?_, ⟨?_, h.pending, h.funcs, h.cur, h.blocks⟩⟩
+  · simp [defineGlobal, h.pending, lookupTy, hxg]
+  · intro y; simp [h.globals y]
+
+
 end Proofs.IRBuild
